@@ -98,6 +98,39 @@ def generate(rng, tier, focus):
         for acts in C13.enum_histories(kind, 5, rng, 0.5 if thorough else 0.2):
             if sum(1 for a in acts if a[0] == "unsub") >= 1 and any(a[0] == "emit" and a[2][0] in ("c", "e") for a in acts):
                 cases.append((scn(subjects=[["subject"]], conns=[[kind, ["hot", 0]]], handles=3, script_=acts), {"k": "conn-stale-unsub"}))
+    # ... and over a COLD source that has run to its terminal inside the first subscribe: an unsubscribe after that terminal (once,
+    # twice) must have no effect - the next subscriber gets the recorded history (replay) / a fresh run (ref_count), the source is
+    # not subscribed behind anybody's back (c13 counts source subscriptions through the probes)
+    for _ in range(1500 if thorough else 250):
+        kind = rng.choice(["replay", "replay", "refcount"])
+        s0 = scen.script([rng.choice(items) for _ in range(rng.randrange(0, 4))], rng.choice(["c", "c", ("e", 5)]))
+        acts = [sub(0, ["conn", 0])]
+        if rng.random() < 0.4:
+            acts.append(sub(1, ["conn", 0]))
+        acts += [["unsub", 0]] * rng.choice([1, 1, 2])
+        acts.append(sub(2, ["conn", 0]))
+        if rng.random() < 0.5:
+            acts += [["unsub", rng.choice([0, 1, 2])], ["unsub", 2]]
+        cases.append((scn(srcs=[src([s0], rng.random() < 0.3)], conns=[[kind, ["cold", 0]]], handles=3, script_=acts), {"k": "conn-cold-unsub-after-terminal"}))
+    # "is_subscribed() is true from subscribe until the first terminal or unsubscribe": every single-source operator with every
+    # boundary parameter DIRECTLY below the subscriber (and under one more operator), fed items one by one: the flag after every
+    # driver action is judged (an operator that gives up without a terminal turns it false too early)
+    for _ in range(4 if thorough else 1):
+        for cnt in scen.COUNTS:
+            insts = [("take", [cnt]), ("take_last", [cnt]), ("skip", [cnt]), ("skip_last", [cnt]), ("element_at", [cnt])]
+            for nm, ps in insts + ([rng.choice(scen.single_ops(rng)) for _ in range(6)]):
+                if nm in ("retry", "retry_when", "dematerialize"):
+                    continue
+                for outer in (None, rng.choice(scen.single_ops(rng))):
+                    if outer is not None and outer[0] in ("retry", "retry_when", "dematerialize"):
+                        continue
+                    p = op(nm, ps, ["hot", 0])
+                    if outer is not None:
+                        p = op(outer[0], outer[1], p)
+                    emits = [["emit", 0, n(rng.choice(items))] for _ in range(rng.randrange(1, 5))]
+                    if rng.random() < 0.5:
+                        emits.append(["emit", 0, rng.choice([C, e(4)])])
+                    cases.append((scn(subjects=[rng.choice(KINDS)], handles=1, script_=[sub(0, p)] + emits + [["unsub", 0]]), {"k": "flag-boundary"}))
     return cases
 
 
